@@ -4,6 +4,7 @@ import (
 	"context"
 	"fmt"
 	"sort"
+	"sync"
 	"time"
 
 	gerrors "github.com/acquirecloud/golibs/errors"
@@ -21,6 +22,7 @@ type WOp struct {
 	W   int    `json:"w,omitempty"`   // cancel: index into the live waiters (modulo)
 	Ver int    `json:"ver,omitempty"` // start: 0 current version, 1 a stale version, 2 unknown (garbage) version
 	Pre bool   `json:"pre,omitempty"` // start: the context is already cancelled
+	Gate bool  `json:"gate,omitempty"` // start: the waiter is held at its first ctx.Done() (after it registered, before it parks) until an "ungate" step
 	Two bool   `json:"two,omitempty"` // putmany: both keys
 	Exp bool   `json:"exp,omitempty"` // write with expiry +1h (only where the clock is controlled)
 	Min int    `json:"min,omitempty"` // advance
@@ -40,6 +42,7 @@ type WEnv struct {
 	Advance func(time.Duration)                 // nil: no clock control (advance/Exp are skipped)
 	Now     func() time.Time
 	Table   func() (int, int, bool)
+	Gates   bool // gated starts are possible (deterministic environment only)
 }
 
 type wkey struct {
@@ -51,7 +54,26 @@ type wkey struct {
 	expAt  time.Duration
 }
 
+// gateCtx parks the goroutine that asks for Done() the first time - inside WaitForVersionChange that is the moment
+// between the registration of the waiter and its select - until the script lets it go.
+type gateCtx struct {
+	context.Context
+	once    sync.Once
+	reached chan struct{}
+	gate    chan struct{}
+}
+
+func (g *gateCtx) Done() <-chan struct{} {
+	g.once.Do(func() {
+		close(g.reached)
+		<-g.gate
+	})
+	return g.Context.Done()
+}
+
 type wtr struct {
+	gctx      *gateCtx // nil: not gated
+	gated     bool     // currently held at the gate
 	id        int
 	key       int
 	argGen    int // generation the version argument belongs to; -1 = matches nothing
@@ -93,6 +115,10 @@ func RunWait(c WCase, env *WEnv) (info WInfo, v *vstat.Violation) {
 	var chans []chan struct{}
 	for _, w := range live {
 		w.cancel()
+		if w.gated {
+			w.gated = false
+			close(w.gctx.gate)
+		}
 		chans = append(chans, w.done)
 	}
 	if ok := env.Settle(chans); !ok && v == nil {
@@ -170,13 +196,33 @@ func runWait(c WCase, env *WEnv, info *WInfo, livep *[]*wtr) *vstat.Violation {
 				cancel()
 				w.cancelled = true
 			}
+			var use context.Context = wctx
+			if op.Gate && env.Gates {
+				w.gctx = &gateCtx{Context: wctx, reached: make(chan struct{}), gate: make(chan struct{})}
+				use = w.gctx
+				info.class("gated_waiter")
+			}
 			key := name(k)
 			go func() {
-				w.err = env.St.WaitForVersionChange(wctx, key, arg)
+				w.err = env.St.WaitForVersionChange(use, key, arg)
 				close(w.done)
 			}()
 			*livep = append(*livep, w)
 			cause = "immediate"
+		case "ungate":
+			var held []*wtr
+			for _, w := range *livep {
+				if w.gated {
+					held = append(held, w)
+				}
+			}
+			if len(held) == 0 {
+				continue
+			}
+			w := held[op.W%len(held)]
+			w.gated = false
+			close(w.gctx.gate)
+			cause = "ungate"
 		case "cancel":
 			if len(*livep) == 0 {
 				continue
@@ -277,7 +323,7 @@ func runWait(c WCase, env *WEnv, info *WInfo, livep *[]*wtr) *vstat.Violation {
 		// expectation for every live waiter
 		var must []chan struct{}
 		for _, w := range *livep {
-			if w.cancelled || !alive(w.key) || keys[w.key].gen != w.argGen {
+			if !w.gated && !(op.K == "start" && w.gctx != nil && w == (*livep)[len(*livep)-1]) && (w.cancelled || !alive(w.key) || keys[w.key].gen != w.argGen) {
 				must = append(must, w.done)
 			}
 		}
@@ -287,6 +333,23 @@ func runWait(c WCase, env *WEnv, info *WInfo, livep *[]*wtr) *vstat.Violation {
 		keep := (*livep)[:0]
 		woken := 0
 		for _, w := range *livep {
+			if w.gctx != nil && !w.gated && op.K == "start" && w == (*livep)[len(*livep)-1] {
+				// a gated start: either the call returned before it ever looked at the context, or it sits at the gate now
+				select {
+				case <-w.gctx.reached:
+					w.gated = true
+				default:
+				}
+			}
+			if w.gated {
+				select {
+				case <-w.done:
+					return vstat.V(env.Name+":wait-harness", "internal: a gated waiter returned")
+				default:
+				}
+				keep = append(keep, w)
+				continue
+			}
 			absent := !alive(w.key)
 			changed := !absent && keys[w.key].gen != w.argGen
 			returned := false
@@ -324,11 +387,17 @@ func runWait(c WCase, env *WEnv, info *WInfo, livep *[]*wtr) *vstat.Violation {
 		if env.Table != nil {
 			if e, n, ok := env.Table(); ok {
 				parkedKeys := map[int]bool{}
+				parked, atGate := 0, 0
 				for _, w := range keep {
 					parkedKeys[w.key] = true
+					if w.gated {
+						atGate++ // registered when it reached the gate; its record may have been notified and dropped since
+					} else {
+						parked++
+					}
 				}
-				if n != len(keep) || e > len(parkedKeys) {
-					return vstat.V(env.Name+":waiter-table", "after %s: %d waiters are parked on %d keys but the waiter table has %d entries / %d waiters", where, len(keep), len(parkedKeys), e, n)
+				if n < parked || n > parked+atGate || e > len(parkedKeys) {
+					return vstat.V(env.Name+":waiter-table", "after %s: %d waiters are parked (+%d held between registration and parking) on %d keys but the waiter table has %d entries / %d waiters", where, parked, atGate, len(parkedKeys), e, n)
 				}
 			}
 		}
@@ -339,9 +408,11 @@ func runWait(c WCase, env *WEnv, info *WInfo, livep *[]*wtr) *vstat.Violation {
 func describeW(o WOp) string {
 	switch o.K {
 	case "start":
-		return fmt.Sprintf("start(key%d,ver%d,precancelled=%v)", o.Key&1, o.Ver, o.Pre)
+		return fmt.Sprintf("start(key%d,ver%d,precancelled=%v,gated=%v)", o.Key&1, o.Ver, o.Pre, o.Gate)
 	case "cancel":
 		return fmt.Sprintf("cancel(%d)", o.W)
+	case "ungate":
+		return fmt.Sprintf("ungate(%d)", o.W)
 	case "advance":
 		return fmt.Sprintf("advance(%dmin)", o.Min)
 	case "putmany":
